@@ -589,13 +589,18 @@ func replayCounterexample(p *Program, res *UnitResult, o *Obligation, base strin
 	if root.Parent() != nil || root.Pkg == nil {
 		return replayOutcome{Note: "replay not supported for closures"}
 	}
+	for name := range u.trusted {
+		if strings.HasPrefix(name, "os.") || strings.HasPrefix(name, "(*os.File)") || strings.HasPrefix(name, "net.") {
+			return replayOutcome{Note: "not replayed: the function has file-system or network effects (" + name + "); running a counterexample would perform them"}
+		}
+	}
 	var clause *Clause
 	if o.Kind == "ensures" {
 		label := o.Label
 		if i := strings.Index(label, "@ret"); i >= 0 {
 			label = label[:i]
 		}
-		if ct := u.db.forFunc(u.rootKey); ct != nil {
+		if ct := u.ctFor(u.rootKey); ct != nil {
 			for i := range ct.Ensures {
 				if ct.Ensures[i].Label == label {
 					clause = &ct.Ensures[i]
